@@ -377,6 +377,17 @@ def check(prop, tier, seed, t0):
         viol_records.append(dict(obligation=o['id'], replay=path, confirmed=confirmed, note=o.get('note'), model=o.get('model')))
 
     level = plan['level']
+    # cover / canary checks the solver could not decide (quantified hypotheses): look for a concrete witness of reachability instead
+    native_reach = {}
+    for oid in list(unconfirmed):
+        fn_ = oid.split('#')[0]
+        if fn_ not in native_reach:
+            try:
+                native_reach[fn_] = native.reach_witness(fn_, seed, 200, reg)
+            except Exception:
+                native_reach[fn_] = None
+        if native_reach[fn_] is not None:
+            unconfirmed.remove(oid)
     wall = time.time() - t0
     trusted = sorted('model contract of library function %s (assumed: its symbolic facts are trusted; its concrete branch is compared with the real library by the translation cross-check of every function that uses it)' % l for l in lib_used)
     trusted += ['assumed contract (body not verified deductively; %s): %s' % (c.note or 'bounded conformance only', c.target) for c in reg.by_target.values() if c.assumed and (c.target in used or c.target in assumed_here)]
@@ -390,6 +401,7 @@ def check(prop, tier, seed, t0):
                slowest_obligations=[dict(time_s=t, id=i, backend=b) for t, i, b in sorted(slowest, reverse=True)[:5]],
                bounded_checks=bounded, known_findings=kf_lines, undecided=undecided, violations=viol_records,
                consistency_unconfirmed=unconfirmed,
+               consistency_native_witnesses={k: json.loads(json.dumps(v, default=str)) for k, v in native_reach.items() if v is not None},
                translation_crosscheck=dict(functions=xc_fns, cases=xc_cases, mismatches=xc_bad[:5]),
                lemma_native_instances=lemma_native,
                source_sha256=frontend.source_hashes(), repo=frontend.REPO,
